@@ -4,6 +4,7 @@ CONSTANTS
   ENT = 1
   N = 2
   WT = {1, 2}
+  SetTypes = {1, 2}
   OT = {}
   KS = {1}
   AddCs = {0}
